@@ -142,6 +142,24 @@ func discharge(e *enc, dir string, idx int, timeoutMs int, obls []*Obl) {
 	if len(obls) == 0 {
 		return
 	}
+	// vacuity probes: only an unsat answer matters, so they get a short time-out and no retry
+	var probes, rest []*Obl
+	for _, o := range obls {
+		if o.Class == "reach" {
+			probes = append(probes, o)
+		} else {
+			rest = append(rest, o)
+		}
+	}
+	if len(probes) > 0 && len(rest) > 0 {
+		dischargeSet(e, dir, idx*2+1, 1000, probes, false)
+		dischargeSet(e, dir, idx*2, timeoutMs, rest, true)
+		return
+	}
+	dischargeSet(e, dir, idx*2, timeoutMs, obls, len(probes) == 0)
+}
+
+func dischargeSet(e *enc, dir string, idx int, timeoutMs int, obls []*Obl, retryOthers bool) {
 	decls := e.smtDecls()
 	var pending []*Obl
 	for _, o := range obls {
@@ -173,7 +191,11 @@ func discharge(e *enc, dir string, idx int, timeoutMs int, obls []*Obl) {
 	fn := filepath.Join(dir, fmt.Sprintf("f%04d.smt2", idx))
 	os.WriteFile(fn, []byte(b.String()), 0644)
 	cfgs := solverCfgs(timeoutMs, e.strTheory)
-	out, dur := runSolver(cfgs[0], fn, time.Duration(timeoutMs*len(pending)+5000)*time.Millisecond)
+	firstMs := timeoutMs
+	if firstMs > 2500 && retryOthers {
+		firstMs = 2500 // the fast path; whatever it leaves open is raced over all solvers with the full time-out
+	}
+	out, dur := runSolver(solverCfgs(firstMs, e.strTheory)[0], fn, time.Duration(firstMs*len(pending)+5000)*time.Millisecond)
 	res, errs := parseResults(out, len(pending))
 	if len(errs) > 0 {
 		for _, o := range pending {
@@ -184,7 +206,7 @@ func discharge(e *enc, dir string, idx int, timeoutMs int, obls []*Obl) {
 	var retry []*Obl
 	for i, o := range pending {
 		o.Result, o.Solver, o.Ms = res[i], cfgs[0].Name, per
-		if res[i] != "unsat" && res[i] != "sat" {
+		if res[i] != "unsat" && res[i] != "sat" && retryOthers {
 			retry = append(retry, o)
 		}
 	}
